@@ -76,6 +76,29 @@ fn main() {
                         drop(b);
                         let c: Bump<16> = Bump::with_min_align();
                         c.alloc(());
+                        // the `Allocator` API with zero-sized layouts on arenas that hold no chunk: allocate, shrink and grow "in place",
+                        // deallocate (every one of them may be tempted to store the finger)
+                        {
+                            use allocator_api2::alloc::Allocator;
+                            use std::alloc::Layout;
+                            let z1 = Layout::from_size_align(0, 1).unwrap();
+                            let z8 = Layout::from_size_align(0, 8).unwrap();
+                            let d = Bump::new();
+                            let a = &d;
+                            let p = a.allocate(z1).unwrap();
+                            let p = unsafe { a.shrink(p.cast::<u8>(), z1, z1) }.unwrap();
+                            let p = unsafe { a.grow(p.cast::<u8>(), z1, z1) }.unwrap();
+                            let p = unsafe { a.grow_zeroed(p.cast::<u8>(), z1, z1) }.unwrap();
+                            unsafe { a.deallocate(p.cast::<u8>(), z1) };
+                            let q = a.allocate_zeroed(z8).unwrap();
+                            let q = unsafe { a.shrink(q.cast::<u8>(), z8, z1) }.unwrap();
+                            unsafe { a.deallocate(q.cast::<u8>(), z1) };
+                            let e: Bump<8> = Bump::with_min_align();
+                            let a = &e;
+                            let p = a.allocate(z1).unwrap();
+                            let p = unsafe { a.shrink(p.cast::<u8>(), z1, z1) }.unwrap();
+                            unsafe { a.deallocate(p.cast::<u8>(), z1) };
+                        }
                     })
                 })
                 .collect();
